@@ -192,7 +192,21 @@ def ival(v):
         return z3.IntVal(NONE_ADDR)
     if isinstance(v, POpt):
         return z3.If(v.is_none, z3.IntVal(NONE_ADDR), v.ref.addr)
+    if isinstance(v, PTuple) and len(v.items) >= 2:
+        # a tuple used as a dict key / set element: an injective pairing of the component identities
+        # (PAIR is declared injective through its two projections, asserted once in TUPLE_AXIOMS)
+        t = ival(v.items[-1])
+        for x in reversed(v.items[:-1]):
+            t = PAIR(ival(x), t)
+        return t
     raise OutOfSubset("value of kind %s used as a cell content" % v.kind)
+
+
+PAIR = z3.Function("pair", z3.IntSort(), z3.IntSort(), z3.IntSort())
+_pa, _pb = z3.Ints("a!pair b!pair")
+TUPLE_AXIOMS = z3.ForAll([_pa, _pb], z3.And(z3.Function("pair_fst", z3.IntSort(), z3.IntSort())(PAIR(_pa, _pb)) == _pa,
+                                            z3.Function("pair_snd", z3.IntSort(), z3.IntSort())(PAIR(_pa, _pb)) == _pb),
+                         patterns=[PAIR(_pa, _pb)])
 
 
 class PState:
@@ -324,6 +338,15 @@ class PyExec:
         for k, a in self.opt.get("allow_exc", {}).items():
             if exc.startswith(k):
                 allowed = a
+        base = exc.split(".")[0]
+        for frame in reversed(getattr(self, "try_stack", [])):
+            if base in frame["catches"] or "Exception" in frame["catches"]:
+                # inside `try: ... except <base>:` - the failing case continues in the handler, from the state reached here
+                s2 = st.copy()
+                s2.path.append(z3.Not(cond))
+                frame["raised"].append((s2, base))
+                st.path.append(cond)
+                return
         self.oblige(st, "exc", exc, cond if allowed is None else z3.Or(cond, allowed), node, note)
         st.path.append(cond)
 
@@ -573,8 +596,15 @@ class PyExec:
         ts = [t for _, t in vals]
         if all(isinstance(v, PBool) for v, _ in vals):
             return PBool(z3.And(*ts) if is_and else z3.Or(*ts))
-        # value semantics: returns the deciding operand; only truth is needed when used as condition
-        return PBool(z3.And(*ts) if is_and else z3.Or(*ts)) if True else None
+        # value semantics: `a and b` is b if a is truthy else a; `a or b` is a if a is truthy else b (right to left fold)
+        out = vals[-1][0]
+        for v, t in reversed(vals[:-1]):
+            a, b = (out, v) if is_and else (v, out)
+            try:
+                out = merge_val(t, a, b)
+            except (MergeFail, OutOfSubset):
+                out = PAny(z3.If(t, ival(a), ival(b)))
+        return out
 
     CMP = {ast.Lt: "<", ast.LtE: "<=", ast.Gt: ">", ast.GtE: ">=", ast.Eq: "==", ast.NotEq: "!="}
 
@@ -809,7 +839,7 @@ class PyExec:
             if isinstance(v, PRef):
                 return PBool(z3.BoolVal(v.cls in classes))
             raise OutOfSubset("isinstance of %s" % v.kind)
-        if name in ("str", "repr") and len(n.args) == 1 and not n.keywords:
+        if name in ("str", "repr", "float", "hash", "id") and len(n.args) == 1 and not n.keywords:
             v = self.ev(st, n.args[0])
             if isinstance(v, (PAny, PInt)):
                 # text renderings of an abstract value: two DIFFERENT uninterpreted functions (nothing relates str to repr)
@@ -944,6 +974,10 @@ class PyExec:
             raise StaleContract("inlined callee %s not found" % qualname)
         fa = fn.args
         names = [a.arg for a in fa.posonlyargs + fa.args]
+        if len(args) < len(names) and len(names) - len(args) <= len(fa.defaults):
+            # trailing parameters take their (constant) defaults
+            for d in fa.defaults[len(fa.defaults) - (len(names) - len(args)):]:
+                args = list(args) + [self.ev(st, d)]
         if len(names) != len(args) or fa.vararg or fa.kwarg:
             raise OutOfSubset("inlined call to %s: argument shape" % qualname)
         saved_vars, saved_ann = st.vars, self.ann
@@ -1148,13 +1182,35 @@ class PyExec:
             raise OutOfSubset("try with finally / else")
         entry = st.copy()
         outs = []
-        for o in self.exec_block(st, n.body):
+        catches = set()
+        for h in n.handlers:
+            for x in ([h.type] if not isinstance(h.type, ast.Tuple) else list(h.type.elts)) if h.type is not None else []:
+                if isinstance(x, ast.Name):
+                    catches.add(x.id)
+            if h.type is None:
+                catches.add("Exception")
+        frame = {"catches": catches, "raised": []}
+        self.__dict__.setdefault("try_stack", []).append(frame)
+        try:
+            body_outs = self.exec_block(st, n.body)
+        finally:
+            self.try_stack.pop()
+        for s2, exc in frame["raised"]:
+            # implicit exception (KeyError, IndexError, ...) at a guarded site of the body: run the matching handler there
+            h = [h for h in n.handlers if self._handler_matches(h, exc)][0]
+            if h.name:
+                raise OutOfSubset("except ... as name")
+            outs.extend(self.exec_block(s2, h.body))
+        implicit_only = set(catches) <= {"KeyError", "IndexError", "ZeroDivisionError", "AttributeError", "ValueError"}
+        for o in body_outs:
             if o[0] == "raise" and any(self._handler_matches(h, o[2]) for h in n.handlers):
                 h = [h for h in n.handlers if self._handler_matches(h, o[2])][0]
                 outs.extend(self.exec_block(o[1], h.body))
             else:
                 outs.append(o)
         for h in n.handlers:
+            if implicit_only:
+                break           # handlers for exceptions whose raise sites are all modelled (guards): no over-approximation needed
             if h.name:
                 raise OutOfSubset("except ... as name")
             s2 = entry.copy()
@@ -1563,6 +1619,8 @@ def arg_term(a):
         return tuple(arg_term(x) for x in a.items)
     if isinstance(a, PNone):
         return None
+    if isinstance(a, PStr) and a.text is not None:
+        return intern_id(a.text)       # a string constant: its abstract identity
     return a
 
 
